@@ -7,6 +7,7 @@ package main
 //   st.sender sc  <sender> <boxes> <syms> <eph> <src> <sink> <ops>
 //   st.sender det <ma> <signer> <src> <sink> <ops>
 //   st.sender <kind>.a <the same params> <brand> <sink> <ops>      armored composition
+//   st.sender armor <typ> <brand> <sink> <ops>                     the bare armor encoder stream (ext_B_armor.go)
 //
 // goExecExtB drives the REAL NewEncryptStream / NewSignStream / NewSigncryptSealStream /
 // NewSignDetachedStream (and the armored constructors) over a writer whose k-th Write fails
@@ -165,6 +166,12 @@ func senderCtor(t []string) (mk func(w io.Writer) (io.WriteCloser, error), src *
 		} else {
 			mk = func(w io.Writer) (io.WriteCloser, error) { return saltpack.NewSigncryptSealStream(w, c, sender, boxes, syms) }
 		}
+	case "armor": // typ brand — the BARE armor encoder stream (NewArmor62EncoderStream), no packet stream above it
+		typ := saltpack.MessageType(atoi(t[2]))
+		brand := string(unhex(t[3]))
+		src = &script.Source{}
+		rest = t[4:]
+		mk = func(w io.Writer) (io.WriteCloser, error) { return saltpack.NewArmor62EncoderStream(w, typ, brand) }
 	default:
 		panic("st.sender kind " + kind)
 	}
